@@ -1,13 +1,5 @@
-import TinsModel.Wire.Ip.Family
-import TinsModel.Basic.CursorLemmas
-import TinsModel.Basic.CodecLemmas
-import TinsModel.Wire.ChainLemmas
-import TinsModel.Wire.IfaceLemmas
+import TinsModel.Wire.Ip.ThFamily
 /-
-  Per-layer theorems of the Ip family for the four wire properties (C01 parse_safe, C02 writesOnly,
-  C03 reparse, C04 codec inverses).  See TinsModel/Wire/Transport/Theorems.lean for the worked example (UDP).
+  Per-layer and family-level theorems of the Ip family for the four wire properties (C01 parse_safe, C02 writesOnly,
+  C03 reparse, C04 invariants / container laws / codec inverses): see `ThFamily.lean` for the index.
 -/
-namespace Tins.Wire.Ip
-open Tins Tins.Wire
-
-end Tins.Wire.Ip
